@@ -13,12 +13,12 @@ CHECK = dict(
     units=[
         dict(name="inpkg", dir=D, src="C01/inpkg", runs=[
             dict(name="accept", run="^TestVerifC01Accept$", quick=10000, thorough=400000, shards_thorough=4),
-            dict(name="framing", run="^TestVerifC01Framing$", quick=4000, thorough=300000, shards_thorough=6),
+            dict(name="framing", run="^TestVerifC01Framing$", quick=4000, thorough=200000, shards_thorough=6),
             dict(name="fuzz", run="^FuzzVerifC01Accept$", quick=0, thorough=0, tier_only="thorough",
                  fuzz="^FuzzVerifC01Accept$", fuzztime="150s", timeout_thorough=600, env={"GOMAXPROCS": "4"}),
         ]),
         dict(name="sockets", dir=D, src="C01/sockets", runs=[
-            dict(name="sockets", run="^TestVerifC01Sockets$", quick=400, thorough=18000, shards_quick=2, shards_thorough=6,
+            dict(name="sockets", run="^TestVerifC01Sockets$", quick=400, thorough=15000, shards_quick=2, shards_thorough=6,
                  timeout_quick=300, timeout_thorough=1500),
         ]),
     ],
